@@ -46,6 +46,8 @@ def build_inputs(rng, tmp):
     msa2 = W("msa_ref_near_end.fasta", gen.layout(rng, short[:7] + [("REF", ref_row)] + short[7:], "plain"))
     msa3 = W("msa_ref_middle.fasta", gen.layout(rng, [("s%d" % i, r) for i, r in enumerate(rows[:20])] + [("REF", ref_row)] +
                                             [("s%d" % i, r) for i, r in enumerate(rows[20:], 20)], "plain"))
+    # a SHORT alignment (it fits the reader's channel buffer whole) with the reference first, to be given on stdin
+    msa_short = W("msa_short.fasta", gen.layout(rng, [("REF", ref_row)] + [("s%d" % i, r) for i, r in enumerate(rows[:4])], "plain"))
     gff = W("anno.gff", anno.render_gff(genome, feats))
     gb = W("anno.gb", anno.render_genbank(genome, [f for f in feats]))
     # several named features with different IDs starting at one position (as ORF1ab, ORF1a and nsp1 all start at 266): their
@@ -76,7 +78,7 @@ def build_inputs(rng, tmp):
     udref = W("udref.fasta", gen.layout(rng, [("ref", r2)], "plain"))
     udq = W("udq.fasta", gen.layout(rng, qs, "plain"))
     udt = W("udt.fasta", gen.layout(rng, ts, "plain"))
-    return dict(gff5=gff5, msa5=msa5, udref3=udref3, udq3=udq3, udt3=udt3, msa=msa, msa2=msa2, msa3=msa3, gff=gff, gb=gb, ref=ref, aln=aln, sam=sam, udref=udref, udq=udq, udt=udt, tmp=tmp)
+    return dict(msa_short=msa_short, gff5=gff5, msa5=msa5, udref3=udref3, udq3=udq3, udt3=udt3, msa=msa, msa2=msa2, msa3=msa3, gff=gff, gb=gb, ref=ref, aln=aln, sam=sam, udref=udref, udq=udq, udt=udt, tmp=tmp)
 
 
 def commands(F, binp):
@@ -92,6 +94,7 @@ def commands(F, binp):
         "variants ref-near-end": ["variants", "--msa", F["msa2"], "-r", "REF", "-a", F["gff"], "-t", T, "--append-snps"],
         "variants ref-middle": ["variants", "--msa", F["msa3"], "-r", "REF", "-a", F["gff"], "-t", T],
         "variants, features sharing a start": ["variants", "--msa", F["msa5"], "-r", "REF", "-a", F["gff5"], "-t", T],
+        "variants, short alignment on stdin": ["variants", "-r", "REF", "-a", F["gff"], "-t", T, "<" + F["msa_short"]],
         "variants --aggregate": ["variants", "--msa", F["msa"], "-r", "REF", "-a", F["gff"], "-t", T, "--aggregate"],
         "snps": ["snps", "-r", F["ref"], "-q", F["aln"]],
         "snps --aggregate": ["snps", "-r", F["ref"], "-q", F["aln"], "--aggregate"],
@@ -114,7 +117,11 @@ def run(binp, argv, threads, maxprocs, seed, report):
     else:
         env.pop("GOFASTA_VERIF_SEED", None)
     argv = [a.replace("{threads}", str(threads)) for a in argv]
-    return cm.run_binary(binp, argv, timeout=60, env=env) + (argv,)
+    stdin = None
+    if argv and argv[-1].startswith("<"):          # "<FILE": the file is given on standard input
+        stdin = open(argv[-1][1:], "rb").read()
+        argv = argv[:-1]
+    return cm.run_binary(binp, argv, timeout=60, env=env, stdin=stdin) + (argv,)
 
 
 def check(ctx):
